@@ -58,6 +58,13 @@ def isFU (p : Bytes) : Bool := match p with | a :: b :: _ => hdrIsFU (rd16 a b) 
 def rtKF (cfg : Cfg) (mtu : UInt16) (frames : List (List (Nat × Bytes))) : Bool :=
   cfg.addDONL && (rtPayloads cfg mtu frames).any (·.any isFU)
 
+/-- the exported sub-parser that decodes packets of the form of `desc`, used directly -/
+def subIndex : Packet → Nat
+  | .single .. => 0
+  | .ap .. => 1
+  | .fu .. => 2
+  | .paci .. => 3
+
 /-! ### c14.rt with the options set per call -/
 
 /-- one call of a history: the options in force during the call, the frame's units with their
@@ -111,6 +118,10 @@ def subDecode (which : Nat) (donl : Bool) (p : Option Bytes) : Res Parsed :=
     | 1 => parseAgg donl p
     | 2 => parseFU donl p
     | _ => parsePACI p).map Pkt.view).coarse
+
+/-- c14.dec with the sub-parser of `desc`'s form as the receiver -/
+def decObsSub (donl : Bool) (desc : Packet) (fed : Bytes) : C14.DecObs :=
+  { res := subDecode (subIndex desc) donl (some fed), head := isPartitionHead fed }
 
 def depHist (donl : Bool) (ps : List (Option Bytes)) : List (C09.DepObs (Option Parsed)) :=
   ps.map (depObs donl)
